@@ -290,9 +290,15 @@ func c09(c *wk.Ctx) {
 }
 
 func c09case(c *wk.Ctx, idx int, r *rand.Rand, sc rpcScenario) {
-	e, err := newRPCEnv(c, idx, r, envOpts{})
+	// one scenario in four runs on a session keyed in this process (a key exchange first) instead of a resumed one:
+	// whatever the exchange leaves behind in the client (service mode, its channel, table entries) is there now
+	fresh := idx%4 == 2 && !sc.Seed
+	if fresh {
+		c.Count("scenario.freshly_keyed_session", 1)
+	}
+	e, err := newRPCEnv(c, idx, r, envOpts{Fresh: fresh})
 	if err != nil {
-		c.Viol("C09", idx, "setup", "resumed connection could not be established: "+err.Error(), sc)
+		c.Viol("C09", idx, "setup", "connection could not be established: "+err.Error(), sc)
 		return
 	}
 	defer e.close()
